@@ -64,16 +64,17 @@ func vpNext(name, kind string) uint64 {
 	return u
 }
 
-func vpByte(name string) byte       { return byte(vpNext(name, "byte")) }
-func vpBool(name string) bool       { return vpNext(name, "bool") != 0 }
-func vpInt(name string) int         { return int(vpNext(name, "int")) }
-func vpInt64(name string) int64     { return int64(vpNext(name, "int64")) }
-func vpUint64(name string) uint64   { return vpNext(name, "uint64") }
-func vpRune(name string) rune       { return rune(uint32(vpNext(name, "rune"))) }
+func vpByte(name string) byte     { return byte(vpNext(name, "byte")) }
+func vpBool(name string) bool     { return vpNext(name, "bool") != 0 }
+func vpInt(name string) int       { return int(vpNext(name, "int")) }
+func vpInt64(name string) int64   { return int64(vpNext(name, "int64")) }
+func vpUint64(name string) uint64 { return vpNext(name, "uint64") }
+func vpRune(name string) rune     { return rune(uint32(vpNext(name, "rune"))) }
+
 // vpBits returns a symbolic value of n bits, zero-extended to 64 (the high
 // bits are literal zeros for the solver, which keeps multipliers narrow).
 func vpBits(name string, n int) uint64 { return vpNext(name, "bits") & (^uint64(0) >> uint(64-n)) }
-func vpFloat64(name string) float64 { return math.Float64frombits(vpNext(name, "float64")) }
+func vpFloat64(name string) float64    { return math.Float64frombits(vpNext(name, "float64")) }
 
 func vpParam(name string) int {
 	v, ok := vpCur.c.Params[name]
